@@ -307,6 +307,10 @@ pub fn write_files(dir: &Path, files: &[(String, String)]) {
     let _ = std::fs::remove_dir_all(dir);
     std::fs::create_dir_all(dir).expect("create session dir");
     for (name, text) in files {
-        std::fs::write(dir.join(name), text).expect("write session file");
+        let path = dir.join(name);
+        if let Some(parent) = path.parent() {
+            std::fs::create_dir_all(parent).expect("create session subdirectory");
+        }
+        std::fs::write(path, text).expect("write session file");
     }
 }
